@@ -290,7 +290,8 @@ func runCompCase(c *compCase, res *vlib.Result, label string) (kcase string, non
 		return "", false, true
 	}
 	if wr.Mismatch != "" {
-		res.Violate(fmt.Sprintf("%s iterator over %d pairs, comparer %d: %s", c.Kind, len(all), c.Cid, wr.Mismatch), c)
+		sc, desc := shrinkComp(c, wr.At, wr.Mismatch)
+		res.Violate(fmt.Sprintf("%s iterator over %d pairs, comparer %d: %s", c.Kind, len(sc.expected(cmp)), c.Cid, desc), sc)
 		return "", false, true
 	}
 	srcs := c.sources(cmp, all)
@@ -333,4 +334,51 @@ func runCompCase(c *compCase, res *vlib.Result, label string) (kcase string, non
 		kcase = sb.String()
 	}
 	return kcase, nontrivial, false
+}
+
+// shrinkComp: cut the walk at the failing call, then drop calls and pairs while it still fails
+func shrinkComp(c *compCase, at int, desc string) (*compCase, string) {
+	deadline := time.Now().Add(3 * time.Second)
+	cmp := vlib.ComparerByID(c.Cid)
+	fails := func(x *compCase) (bool, string) {
+		var wr walkResult
+		hung, pan := runGuarded(5*time.Second, func() {
+			it := x.build(cmp)
+			defer it.Release()
+			wr = runWalk(it, newCursor(x.expected(cmp), cmp), x.Moves)
+		})
+		return !hung && pan == nil && wr.Mismatch != "", wr.Mismatch
+	}
+	cur := *c
+	if at >= 0 && at < len(c.Moves) {
+		cur.Moves = append([]move{}, c.Moves[:at+1]...)
+	}
+	if f, d := fails(&cur); !f {
+		return c, desc
+	} else {
+		desc = d
+	}
+	for i := 0; i+1 < len(cur.Moves) && time.Now().Before(deadline); {
+		cand := cur
+		cand.Moves = append(append([]move{}, cur.Moves[:i]...), cur.Moves[i+1:]...)
+		if f, d := fails(&cand); f {
+			cur, desc = cand, d
+		} else {
+			i++
+		}
+	}
+	// drop pairs of array children
+	for ci := range cur.Children {
+		for i := 0; i < len(cur.Children[ci]) && time.Now().Before(deadline); {
+			cand := cur
+			cand.Children = append([][]kv{}, cur.Children...)
+			cand.Children[ci] = append(append([]kv{}, cur.Children[ci][:i]...), cur.Children[ci][i+1:]...)
+			if f, d := fails(&cand); f {
+				cur, desc = cand, d
+			} else {
+				i++
+			}
+		}
+	}
+	return &cur, desc
 }
